@@ -10,25 +10,79 @@ import (
 )
 
 // C30: character set conversion round-trips and never crashes, for every
-// RangeMap charset with its real tables.
+// RangeMap charset with its real tables (package init).
 //
-// Input: 1..3 (thorough 1..5) arbitrary bytes, slice capacity == length (what
-// []byte(string) and the zero-copy StringToBytes produce).
+// Two harness shapes per charset:
+//   - Rune:   ONE character of 1..4 arbitrary bytes through DecodeRune /
+//             EncodeRune in both directions (exhaustive per character: all byte
+//             values are symbolic);
+//   - String: a string of 1 (thorough 1..2) arbitrary bytes, capacity == length
+//             (what []byte(string) and the zero-copy StringToBytes produce),
+//             through Encode / Decode / EncodeReplaceUnknown: crash freedom of
+//             the loops around the per-character functions and the
+//             string-level round trips.
+// A Go run-time panic anywhere is a counterexample without any assertion.
 
-func c30RoundTrip(enc Encoder, tag string) {
+func c30Rune(enc Encoder, tag string) {
 	rm := enc.(*RangeMap)
-	n := nd.IntRange("n", 1, nd.Bound(3, 5))
-	in := nd.Bytes("in", n)
-	nd.Reach(tag + ".start")
+	n := nd.IntRange(tag+".n", 1, 4)
+	in := nd.Bytes(tag+".in", n)
+	nd.Reach(tag + ".rune")
+	// charset bytes -> UTF-8 -> charset bytes
+	if d, ok := rm.DecodeRune(in); ok {
+		nd.Assert(tag+".rune.decoded-is-one-utf8-char", len(d) >= 1 && len(d) <= 4)
+		e, ok2 := rm.EncodeRune(d)
+		nd.Assert(tag+".rune.decode-then-encode-ok", ok2)
+		nd.Assert(tag+".rune.decode-then-encode-identity", bytes.Equal(e, in))
+	}
+	// UTF-8 -> charset bytes -> UTF-8, for well-formed UTF-8 (the tables of UTF-16 / UTF-32
+	// also accept the 3-byte forms of surrogate code points, which are not valid UTF-8 and
+	// are deliberately not decodable back)
+	if e, ok := rm.EncodeRune(in); ok && c30WellFormedChar(in) {
+		d, ok2 := rm.DecodeRune(e)
+		nd.Assert(tag+".rune.encode-then-decode-ok", ok2)
+		nd.Assert(tag+".rune.encode-then-decode-identity", bytes.Equal(d, in))
+	}
+}
 
-	// no crash on any bytes; encode→decode round trip (UTF-8 → charset → UTF-8) for valid UTF-8
+// c30WellFormedChar: in is exactly one well-formed UTF-8 character (Unicode
+// standard, table 3-7), written with branch-free connectives instead of the
+// unicode/utf8 lookup tables (which are very expensive on symbolic bytes).
+func c30WellFormedChar(in []byte) bool {
+	cont := func(b byte) bool { return nd.And(b >= 0x80, b <= 0xBF) }
+	b0 := in[0]
+	switch len(in) {
+	case 1:
+		return b0 < 0x80
+	case 2:
+		return nd.And(nd.And(b0 >= 0xC2, b0 <= 0xDF), cont(in[1]))
+	case 3:
+		b1 := in[1]
+		second := nd.Or(nd.And(b0 == 0xE0, nd.And(b1 >= 0xA0, b1 <= 0xBF)),
+			nd.Or(nd.And(b0 == 0xED, nd.And(b1 >= 0x80, b1 <= 0x9F)),
+				nd.And(nd.Or(nd.And(b0 >= 0xE1, b0 <= 0xEC), nd.And(b0 >= 0xEE, b0 <= 0xEF)), cont(b1))))
+		return nd.And(second, cont(in[2]))
+	case 4:
+		b1 := in[1]
+		second := nd.Or(nd.And(b0 == 0xF0, nd.And(b1 >= 0x90, b1 <= 0xBF)),
+			nd.Or(nd.And(b0 == 0xF4, nd.And(b1 >= 0x80, b1 <= 0x8F)),
+				nd.And(nd.And(b0 >= 0xF1, b0 <= 0xF3), cont(b1))))
+		return nd.And(second, nd.And(cont(in[2]), cont(in[3])))
+	}
+	return false
+}
+
+func c30String(enc Encoder, tag string) {
+	rm := enc.(*RangeMap)
+	n := nd.IntRange(tag+".n", 1, nd.Bound(1, 2))
+	in := nd.Bytes(tag+".in", n)
+	nd.Reach(tag + ".string")
 	e, okE := rm.Encode(in)
 	if okE && utf8.Valid(in) {
 		d, okD := rm.Decode(e)
 		nd.Assert(tag+".encode-then-decode-ok", okD)
 		nd.Assert(tag+".encode-then-decode-identity", bytes.Equal(d, in))
 	}
-	// decode→encode round trip (charset → UTF-8 → charset)
 	d2, okD2 := rm.Decode(in)
 	if okD2 {
 		e2, okE2 := rm.Encode(d2)
@@ -40,18 +94,30 @@ func c30RoundTrip(enc Encoder, tag string) {
 	if okE {
 		nd.Assert(tag+".replace-agrees-with-encode", bytes.Equal(r, e))
 	}
-	nd.Reach(tag + ".end")
 }
 
-func VerifC30Latin1()   { c30RoundTrip(Latin1, "c30.latin1") }
-func VerifC30Ascii()    { c30RoundTrip(Ascii, "c30.ascii") }
-func VerifC30Cp1256()   { c30RoundTrip(Cp1256, "c30.cp1256") }
-func VerifC30Cp1257()   { c30RoundTrip(Cp1257, "c30.cp1257") }
-func VerifC30Dec8()     { c30RoundTrip(Dec8, "c30.dec8") }
-func VerifC30Geostd8()  { c30RoundTrip(Geostd8, "c30.geostd8") }
-func VerifC30Latin7()   { c30RoundTrip(Latin7, "c30.latin7") }
-func VerifC30Armscii8() { c30RoundTrip(Armscii8, "c30.armscii8") }
-func VerifC30Swe7()     { c30RoundTrip(Swe7, "c30.swe7") }
-func VerifC30Utf16()    { c30RoundTrip(Utf16, "c30.utf16") }
-func VerifC30Utf32()    { c30RoundTrip(Utf32, "c30.utf32") }
-func VerifC30Utf8mb3()  { c30RoundTrip(Utf8mb3, "c30.utf8mb3") }
+func VerifC30RuneLatin1()   { c30Rune(Latin1, "c30.latin1") }
+func VerifC30RuneAscii()    { c30Rune(Ascii, "c30.ascii") }
+func VerifC30RuneCp1256()   { c30Rune(Cp1256, "c30.cp1256") }
+func VerifC30RuneCp1257()   { c30Rune(Cp1257, "c30.cp1257") }
+func VerifC30RuneDec8()     { c30Rune(Dec8, "c30.dec8") }
+func VerifC30RuneGeostd8()  { c30Rune(Geostd8, "c30.geostd8") }
+func VerifC30RuneLatin7()   { c30Rune(Latin7, "c30.latin7") }
+func VerifC30RuneArmscii8() { c30Rune(Armscii8, "c30.armscii8") }
+func VerifC30RuneSwe7()     { c30Rune(Swe7, "c30.swe7") }
+func VerifC30RuneUtf16()    { c30Rune(Utf16, "c30.utf16") }
+func VerifC30RuneUtf32()    { c30Rune(Utf32, "c30.utf32") }
+func VerifC30RuneUtf8mb3()  { c30Rune(Utf8mb3, "c30.utf8mb3") }
+
+func VerifC30StringLatin1()   { c30String(Latin1, "c30.latin1") }
+func VerifC30StringAscii()    { c30String(Ascii, "c30.ascii") }
+func VerifC30StringCp1256()   { c30String(Cp1256, "c30.cp1256") }
+func VerifC30StringCp1257()   { c30String(Cp1257, "c30.cp1257") }
+func VerifC30StringDec8()     { c30String(Dec8, "c30.dec8") }
+func VerifC30StringGeostd8()  { c30String(Geostd8, "c30.geostd8") }
+func VerifC30StringLatin7()   { c30String(Latin7, "c30.latin7") }
+func VerifC30StringArmscii8() { c30String(Armscii8, "c30.armscii8") }
+func VerifC30StringSwe7()     { c30String(Swe7, "c30.swe7") }
+func VerifC30StringUtf16()    { c30String(Utf16, "c30.utf16") }
+func VerifC30StringUtf32()    { c30String(Utf32, "c30.utf32") }
+func VerifC30StringUtf8mb3()  { c30String(Utf8mb3, "c30.utf8mb3") }
